@@ -7,5 +7,5 @@ for p in "$@"; do
   VERIF_SEED=${VERIF_SEED:-0} ./check $p quick > /tmp/mut-$name-$p.log 2>&1; rc=$?
   echo "$name $p exit=$rc $(grep -c '^VIOLATION' /tmp/mut-$name-$p.log) violation lines; $(grep 'case=' /tmp/mut-$name-$p.log | head -1 | cut -c1-220)"
 done
-git -C /repo checkout -- .
+git -C /repo checkout -- .; git -C /repo clean -fdq src
 git -C /repo status --short | head -3
